@@ -149,7 +149,7 @@ func termSpace(maxN int) space {
 	return space{"terminators", alpha, alpha, 0, maxN}
 }
 
-var sampleBudget = map[string]int{"encode": 7, "line_sequences": 12, "terminator_sequences": 4, "single_edits": 7, "whitespace_amounts": 6, "random_mutants": 4}
+var sampleBudget = map[string]int{"encode": 7, "line_sequences": 12, "terminator_sequences": 4, "single_edits": 7, "whitespace_amounts": 5, "skipped_char_insertions": 3, "random_mutants": 2}
 
 type enumJob struct {
 	sp     *space
